@@ -16,3 +16,6 @@ def run(ctx, rep):
     parse_order(rep, prog)
     handover_civil(rep, prog)
     noop_skip(rep, prog)
+    from ..rules_parse import quote_agree, sign_distrib
+    quote_agree(rep, prog)
+    sign_distrib(rep, prog, files=("src/shared/posix.rs",), floor=2)
